@@ -502,22 +502,45 @@ Proof.
     rewrite <- Hxi. exact Hk.
 Qed.
 
+(* ---------- the geometry of the region (after repair 23ac203) ---------- *)
+Lemma heap_geometry c : hcfg_ok c ->
+  h_base c <= heap_start c < h_base c + 16 /\ heap_start c mod 16 = 0 /\
+  heap_end c mod 16 = 0 /\ heap_start c + 32 <= heap_end c /\
+  h_base c + h_size c - 15 <= heap_end c + 32 <= h_base c + h_size c.
+Proof.
+  intros (HB & Hfit & Hsz0 & Hmin). unfold heap_end. unfold heap_start in *.
+  pose proof NODE_eq as HN. pose proof MIN_range as HMINR. pose proof ALIGN_eq as HA. rewrite HN, HA in *.
+  assert (H64 : two64 = 18446744073709551616) by reflexivity.
+  destruct (align_forward_spec (h_base c) 16 ltac:(exists 4; split; [lia | reflexivity]) ltac:(lia) ltac:(lia)) as [Hr Hm].
+  set (hs := align_forward (h_base c) 16) in *.
+  rewrite (align_down16 (h_size c - (hs - h_base c) - 32)) by lia.
+  set (X := h_size c - (hs - h_base c) - 32) in *.
+  pose proof (Z.mod_pos_bound X 16 ltac:(lia)) as HXm.
+  repeat split; try lia; unfold X in *; Z.div_mod_to_equations; lia.
+Qed.
+
 (* ---------- initialisation ---------- *)
 Lemma heap_init_ok c : hcfg_ok c ->
   exists chunks bins, ha_heap_init c = HOk (mkhastate true chunks bins) /\
     raw_inv (heap_start c) (heap_end c) chunks bins [].
 Proof.
-  intros (HB & Hfit & Hmin). unfold ha_heap_init, heap_start, heap_end.
+  intros (HB & Hfit & Hsz0 & Hmin). unfold ha_heap_init, heap_end. unfold heap_start in *.
   pose proof NODE_eq as HN. pose proof MIN_range as HMINR. pose proof ALIGN_eq as HA. pose proof MIN_range as HMr. rewrite HN, HA in *.
   assert (H64 : two64 = 18446744073709551616) by reflexivity.
   destruct (align_forward_spec (h_base c) 16 ltac:(exists 4; split; [lia | reflexivity]) ltac:(lia) ltac:(lia)) as [Hr Hm].
   set (hs := align_forward (h_base c) 16) in *.
   rewrite (w64_small (hs - h_base c)) by lia.
-  rewrite (w64_small (hs - h_base c + 32)) by lia.
-  assert (E : (h_size c <? hs - h_base c + 32) = false) by (apply Z.ltb_ge; lia). rewrite E.
+  change (2 * 32) with 64. rewrite (w64_small 64) by lia.
+  rewrite (w64_small (hs - h_base c + 64)) by lia.
+  assert (E : (h_size c <? hs - h_base c + 64) = false) by (apply Z.ltb_ge; lia). rewrite E.
   rewrite (w64_small (h_size c - (hs - h_base c))) by lia.
   rewrite (w64_small (h_size c - (hs - h_base c) - 32)) by lia.
-  rewrite (w64_small (h_size c - (hs - h_base c) - 32 - 32)) by lia.
+  rewrite (align_down16 (h_size c - (hs - h_base c) - 32)) by lia.
+  set (X := h_size c - (hs - h_base c) - 32) in *.
+  pose proof (Z.mod_pos_bound X 16 ltac:(lia)) as HXm.
+  assert (HX16 : (X - X mod 16) mod 16 = 0) by (Z.div_mod_to_equations; lia).
+  assert (HX32 : 32 <= X - X mod 16) by (unfold X in *; Z.div_mod_to_equations; lia).
+  rewrite (w64_small (X - X mod 16 - 32)) by lia.
   eexists. eexists. split; [reflexivity|].
   split.
   - lia.
@@ -1116,14 +1139,11 @@ Lemma raw_inv_good c chunks bins live :
   hcfg_ok c -> raw_inv (heap_start c) (heap_end c) chunks bins live ->
   good_blocks (h_base c) (h_size c) ALLOC_ALIGN live.
 Proof.
-  intros (HB & Hfit & Hmin) [Hpos Htop Ht Hal Hb (HF & Hnd & Hcomp)].
+  intros Hc [Hpos Htop Ht Hal Hb (HF & Hnd & Hcomp)].
   pose proof NODE_eq as HN. pose proof MIN_range as HMINR. pose proof ALIGN_eq as HA. pose proof MIN_range as HMr.
   pose proof (tiled_bounds _ _ _ Ht) as HBd. rewrite Forall_forall in HBd.
   assert (Hhs : h_base c <= heap_start c /\ heap_end c + NODE <= h_base c + h_size c).
-  { unfold heap_end, heap_start in *. rewrite HA in *.
-    assert (H64 : two64 = 18446744073709551616) by reflexivity.
-    destruct (align_forward_spec (h_base c) 16 ltac:(exists 4; split; [lia | reflexivity]) ltac:(lia) ltac:(lia)) as [Hr _].
-    lia. }
+  { destruct (heap_geometry c Hc) as (G1 & _ & _ & _ & G5). lia. }
   unfold aligned_chunks in Hal. rewrite Forall_forall in Hal, HF.
   unfold good_blocks. repeat split.
   - rewrite Forall_forall. intros b Hbl. destruct (HF b Hbl) as (x & Hx & _ & Ha & Hs).
@@ -1183,4 +1203,4 @@ Qed.
 
 Definition hwit_big : hcfg := mkhcfg 4104 65536.
 Lemma hwit_big_ok : hcfg_ok hwit_big.
-Proof. unfold hcfg_ok, hwit_big, two64. cbn. lia. Qed.
+Proof. unfold hcfg_ok, hwit_big, two64. vm_compute. repeat split; intros Hx; discriminate Hx. Qed.
